@@ -108,6 +108,39 @@ pub fn open_node(vt: &VT, shape: &Shape, prefix: &[u8]) -> bool {
 /// Lazy exploration of all byte strings over `alphabet` up to `max_depth` for every type in `types`
 /// with the given node check; iterative deepening under a per-type run cap when `cap` is finite.
 pub fn explore_all(property: &'static str, sub: &'static str, nodefn: NodeFn, types: &[&VT], alphabet: &[u8], max_depth: usize, cap: u64, skip_zw: bool) -> Acc {
+	if cap == u64::MAX && max_depth >= 2 {
+		// Uncapped exploration is split into (type, first byte) work items so that one expensive type
+		// does not serialise the run: phase 1 visits the roots, phase 2 the sub-trees below every
+		// first byte of the types whose root is open.
+		let open_roots = std::sync::Mutex::new(Vec::<usize>::new());
+		let idx: Vec<usize> = (0..types.len()).collect();
+		let mut acc = par(&idx, |i, acc| {
+			let vt = types[*i];
+			if skip_zw && zw_container(&(vt.shape)()) {
+				acc.add("skipped_zero_width_containers", 1);
+				return;
+			}
+			let mut ex = Explore::new(property, nodefn, vt, alphabet, 0, cap);
+			ex.go(&mut vec![], acc, sub);
+			// depth 0 never recurses; decide openness of the root separately
+			if open_node(vt, &(vt.shape)(), &[]) {
+				open_roots.lock().unwrap().push(*i);
+			}
+		});
+		let mut roots = open_roots.into_inner().unwrap();
+		roots.sort();
+		let items: Vec<(usize, u8)> = roots.iter().flat_map(|i| alphabet.iter().map(move |b| (*i, *b))).collect();
+		let acc2 = par(&items, |(i, b), acc| {
+			let vt = types[*i];
+			if *b == alphabet[0] {
+				heartbeat(&format!("{} {}", vt.name, sub));
+			}
+			let mut ex = Explore::new(property, nodefn, vt, alphabet, max_depth, cap);
+			ex.go(&mut vec![*b], acc, sub);
+		});
+		acc.merge(acc2);
+		return acc;
+	}
 	par(types, |vt, acc| {
 		heartbeat(&format!("{} {}", vt.name, sub));
 		if skip_zw && zw_container(&(vt.shape)()) {
@@ -246,13 +279,8 @@ pub fn run(tier: Tier, reg: &[VT]) -> Report {
 
 	// (a) all byte strings up to length L over the full alphabet, lazily pruned
 	let l_all = if tier.thorough() { 3 } else { 2 };
-	let acc = par(reg, |vt, acc| {
-		heartbeat(&format!("{} (a)", vt.name));
-		let shape = (vt.shape)();
-		let _ = shape;
-		let mut ex = Explore::new("C03", node, vt, &ALL, l_all, u64::MAX);
-		ex.go(&mut vec![], acc, "C03.bytes");
-	});
+	let all_types: Vec<&VT> = reg.iter().collect();
+	let acc = explore_all("C03", "C03.bytes", node, &all_types, &ALL, l_all, u64::MAX, false);
 	rep.part(
 		"(a) all-bytes",
 		&format!("every byte string of length <= {} for every registry type (extensions of a decode that never looked past its input are covered by that decode)", l_all),
